@@ -108,5 +108,8 @@ func (tfg *TaskfileGraph) Merge() (*Taskfile, error) {
 		return nil, err
 	}
 
+	// Resolve the references to tasks of the root Taskfile
+	rootVertex.Taskfile.Tasks.stripRootRefs()
+
 	return rootVertex.Taskfile, nil
 }
